@@ -100,6 +100,31 @@ def r92_r93(repo, ctx, index):
     # R9.3 key function
     hf = repo.func(DP, 'HashTable._hashingFunction')
     rets = [r for r in ast.walk(hf) if isinstance(r, ast.Return)]
+    # both the composition and the temperature are multiplied by the configured precision before the key is truncated to
+    # integers: a quantity that enters unscaled is resolved to whole units only (all temperatures within one kelvin collide)
+    if len(rets) == 1:
+        from ..formula import single_defs as _sd, inline as _inl
+        expr = _inl(rets[0].value, _sd(hf))
+        pnames = set(U.params(hf)[1:3])
+        scaled, unscaled = set(), set()
+
+        def leaves(e, sc):
+            if isinstance(e, ast.BinOp) and isinstance(e.op, ast.Mult):
+                for a_, b_ in ((e.left, e.right), (e.right, e.left)):
+                    if any(isinstance(n_, ast.Attribute) and n_.attr == 'hash_sensitivity' for n_ in ast.walk(a_)):
+                        leaves(b_, True)
+                        return
+            if isinstance(e, ast.Name):
+                if e.id in pnames:
+                    (scaled if sc else unscaled).add(e.id)
+                return
+            for ch in ast.iter_child_nodes(e):
+                leaves(ch, sc)
+        leaves(expr, False)
+        ctx.check(scaled == pnames and not unscaled, 'R9.3', DP, 'HashTable._hashingFunction', rets[0],
+                  'composition and temperature are both scaled by the configured precision before the key is truncated',
+                  f'{sorted(unscaled) or sorted(pnames - scaled)} enters the key without the configured precision: it is resolved to whole units, so different temperatures/compositions share a key at every precision setting',
+                  construct=U.src(expr)[:160])
     names = U.names_in(rets[0].value) if rets else set()
     flds = {U.chain(n)[1] for n in ast.walk(rets[0].value) if isinstance(n, ast.Attribute) and U.chain(n) and U.chain(n)[0] == 'self'} if rets else set()
     pn = U.params(hf)
